@@ -16,7 +16,7 @@ from dataclasses import dataclass, field
 
 VERIF = os.path.dirname(os.path.dirname(os.path.abspath(__file__)))
 SPEC = os.path.join(VERIF, 'spec')
-SCRATCH = os.path.join(VERIF, '.scratch')
+SCRATCH = os.path.join(os.environ.get('VERIF_OUT') or VERIF, '.scratch')
 JAR = '/opt/veriftools/tla/tla2tools.jar:/opt/veriftools/tla/CommunityModules-deps.jar'
 
 
